@@ -83,4 +83,22 @@ theorem maxL_eq_getLast : ∀ (l : List ℚ), StrictInc l → maxL l = l.getLast
       simp only [maxL, List.foldl_cons, max_eq_right (le_of_lt hxy), List.getLast?_cons_cons] at this ⊢
       exact this
 
+/-! bridges from the generated grid arithmetic (`Gen.interp*`, regenerated from `_interp_common`) to closed forms: these are the
+lemmas that stop checking when the source arithmetic changes -/
+
+theorem gridTol_eq (dw : ℚ) : gridTol dw = dw / 1000000000 := by
+  unfold gridTol Gen.interpTol; ring
+
+theorem gridNum_eq (mn mx dw : ℚ) : gridNum mn mx dw = ((mx - mn - gridTol dw) / dw).ceil := by
+  unfold gridNum Gen.interpNum; rfl
+
+theorem commonGrid_eq (mn mx dw : ℚ) (h : 0 ≤ gridNum mn mx dw) :
+    commonGrid mn mx dw = linspace mn mx ((gridNum mn mx dw).toNat + 1) := by
+  unfold commonGrid Gen.interpStart Gen.interpStop Gen.interpCount
+  congr 1
+  omega
+
+theorem interpMin_eq (a b : ℚ) : Gen.interpMin a b = min a b := rfl
+theorem interpMax_eq (a b : ℚ) : Gen.interpMax a b = max a b := rfl
+
 end Lentil.Spec
